@@ -93,10 +93,11 @@ theorem actFinish_pending (s : State) (a : Nat) (c : Call) (hp : s.st a = .pendi
       exact ⟨trivial, (setOutcome_pending s a _ hp).2, setOutcome_acts .., setOutcome_errs ..⟩
     · simp [actFinish, he]
 
-/-- the same block on an action that got cancelled while its function ran: nothing is stored, an `Exception` propagates -/
+/-- the same block on an action that got cancelled while its function ran: nothing is stored, an `Exception` is logged and does
+not propagate (only a `BaseException` does) -/
 theorem actFinish_done (s : State) (a : Nat) (c : Call) (hd : s.st a ≠ .pending) :
     (actFinish s a c).1 = s ∧
-    (actFinish s a c).2 = match c with | .ret _ => none | .raise e => some e := by
+    (actFinish s a c).2 = match c with | .ret _ => none | .raise e => if e.isException then none else some e := by
   have hdn := done_of_ne_pending hd
   cases c with
   | ret v => simp [actFinish, hdn]
@@ -168,7 +169,7 @@ theorem run_fresh {fn : ActFn} {a : Nat} {s : State} (h1 : s.st a = .pending)
       | .raise e => (e.isException = true → (runAction s a).2 = none ∧ (runAction s a).1.st a = .exc e) ∧
                     (e.isException = false → (runAction s a).2 = some e ∧ (runAction s a).1.st a = .pending)) ∧
     (fn.cancels = true → (runAction s a).1.st a = .cancelled ∧
-      (runAction s a).2 = match fn.out with | .ret _ => none | .raise e => some e) := by
+      (runAction s a).2 = match fn.out with | .ret _ => none | .raise e => if e.isException then none else some e) := by
   have hnd : (s.st a).done = false := by simp [St.done, h1]
   have hst : (s.setAct a (some { fn := none, calls := 0 + 1 })).st a = .pending := by simpa [State.setAct, State.st] using h1
   have hact : (s.setAct a (some { fn := none, calls := 0 + 1 })).acts a = some { fn := none, calls := 1 } := by simp [State.setAct]
